@@ -47,7 +47,16 @@ def gen(rng, tier):
         'lines': rng.random() < p_line,
         'rooms': rng.random() < 0.5,
         'handler_pause': rng.random() < 0.3,
+        # another client keeps the namespace alive
+        'bystander': rng.random() < 0.5,
     }
+    # optionally one more application thread uses the same session id in a
+    # non-terminating call while it is being terminated (only at access
+    # granularity: inside the manager's own methods such a call is not
+    # atomic with respect to a termination, which is outside this property)
+    extra = rng.choice([None, None, 'enter_room', 'leave_room', 'emit'])
+    if extra and not cfg['lines']:
+        actions.insert(rng.randrange(len(actions) + 1), 'x_' + extra)
     return {'cfg': cfg, 'actions': actions}
 
 
@@ -124,6 +133,16 @@ def _run(case, cfg, w):
     if cfg['rooms']:
         for ns in nss:
             srv.enter_room(sids[ns], 'r1', namespace=ns)
+    if cfg.get('bystander'):
+        other = w.add_peer('s')
+        other.open()
+        w.settle()
+        for ns in nss:
+            other.send_pkt(sio.CONNECT, ns, None, None)
+            w.settle()
+            if cfg['rooms']:
+                srv.enter_room(other.rx[-1]['pkt'].data['sid'], 'r1',
+                               namespace=ns)
     eio_sid = peer.eio_sid
     # from here on every manager / transport access is a pre-emption point
     real_manager = srv.manager
@@ -141,6 +160,7 @@ def _run(case, cfg, w):
     ended = {}   # ns -> set of admissible reasons
     transport_ended = False
     n_actions = 0
+    extra_ops = []
     for a in case['actions']:
         if a == 'sdisc':
             w.call(srv.disconnect, sids[target_ns], namespace=target_ns,
@@ -156,6 +176,21 @@ def _run(case, cfg, w):
         elif a == 'cdisc_other' and other_ns:
             peer.send_pkt(sio.DISCONNECT, other_ns, None, None)
             ended.setdefault(other_ns, set()).add('client disconnect')
+        elif a.startswith('x_'):
+            if cfg['lines']:
+                continue
+            sid_t = sids[target_ns]
+            if a == 'x_enter_room':
+                h = w.call(srv.enter_room, sid_t, 'late',
+                           namespace=target_ns, _label=('x', 'enter_room'))
+            elif a == 'x_leave_room':
+                h = w.call(srv.leave_room, sid_t, 'r1', namespace=target_ns,
+                           _label=('x', 'leave_room'))
+            else:
+                h = w.call(srv.emit, 'news', 1, to=sid_t,
+                           namespace=target_ns, _label=('x', 'emit'))
+            extra_ops.append(h)
+            continue
         elif a == 'sever':
             peer.sever(0.0)
             transport_ended = True
@@ -207,6 +242,11 @@ def _run(case, cfg, w):
             add('residue_connected', (sid, ns))
         if srv.rooms(sid, ns):
             add('residue_rooms', (sid, ns, srv.rooms(sid, ns)))
+        for rns, rooms in real_manager.rooms.items():
+            for room, members in rooms.items():
+                if sid in members:
+                    add('residue_rooms', (sid, rns, room))
+                    break
         if sid in real_manager.callbacks:
             add('residue_callbacks', sid)
         for pns, lst in real_manager.pending_disconnect.items():
@@ -216,6 +256,15 @@ def _run(case, cfg, w):
         if eio_sid in srv.environ:
             add('residue_environ', eio_sid)
     for o in w.ops:
+        if o in extra_ops:
+            # the non-terminating call may find the client gone and say so
+            if not o.done:
+                add('thread_stuck', repr(o.label))
+            elif o.exc is not None and not isinstance(
+                    o.exc, (KeyError, ValueError)):
+                add('extra_call_raised', '%s raised %r' % (o.label, o.exc),
+                    type(o.exc).__name__)
+            continue
         if o.exc is not None:
             add('thread_raised', '%s raised %r in %s' % (o.label, o.exc,
                                                          o.site),
